@@ -137,6 +137,7 @@ def step (st : State) (line : String) : State × String :=
     let ps := (portsInUse st.env st.s).toArray.qsort (· < ·)
     (st, " ".intercalate (ps.toList.map toString))
   | ["envok"] => (st, bstr (spellingOK st.env))
+  | ["portsok"] => (st, bstr (boundOK st.env))
   | "req" :: m :: path :: ua :: body =>
     match parsePath path, parseBody body with
     | some p, some b =>
